@@ -39,6 +39,9 @@ def generate(rnd, tier):
         fg = fml.FGen(rnd, cg, lits, dict(numq=0.5 if chance(rnd, 0.1) else 0.0, unused=0.03,
                                           connectives=("and", "or", "not", "and", "or", "implies", "iff", "xor")[:rnd.randint(5, 8)]))
         fs.append(fg.formula([("start", "<start>")], rnd.randint(2, 4) if i == 0 else rnd.randint(1, 2)))
+    if chance(rnd, 0.5):
+        # re-used / renaming-style variable names (v, v_0, ...) in sibling scopes
+        fs = [fml.reuse_names(rnd, x) for x in fs]
     return {"grammar": g, "gname": name, "tree": t, "f": fs[0], "g": fs[1], "nary": chance(rnd, 0.7)}
 
 
@@ -178,6 +181,11 @@ def judge(case):
     def check(name, build, expected, post=None):
         try:
             X = build()
+        except RecursionError:
+            # exponential DNFs (thousands of disjuncts, left-deep) exceed Python's recursion limit: a resource
+            # limit, not a semantic defect
+            inconcl.append(name + ":recursion_limit")
+            return
         except Exception as e:
             reraise_if_timeout(e)
             viol.append({"sig": "%s:raises:%s" % (name, type(e).__name__), "detail": str(e)[:300], "f": fml.pr(f)})
@@ -192,6 +200,9 @@ def judge(case):
                 viol.append({"sig": "%s:postcondition" % name, "f": fml.pr(f), "result": str(X)[:400], "detail": str(ok)})
         try:
             got = ev(X)
+        except RecursionError:
+            inconcl.append(name + ":recursion_limit")
+            return
         except Exception as e:
             reraise_if_timeout(e)
             viol.append({"sig": "%s:evaluate_raises:%s" % (name, type(e).__name__), "detail": str(e)[:300], "f": fml.pr(f),
@@ -199,7 +210,7 @@ def judge(case):
             return
         if got is None:
             if numq:
-                inconcl.append(name)
+                inconcl.append(name + ":unknown_numq")
             else:
                 viol.append({"sig": "%s:unknown" % name, "f": fml.pr(f), "result": str(X)[:400]})
             return
@@ -225,7 +236,7 @@ def judge(case):
     check("dnf_of_and", lambda: L.convert_to_dnf(L.convert_to_nnf(L.ConjunctiveFormula(F, G, F))), vf and vg)
     nontrivial = (fml.has_kind(f, ("and", "or", "implies", "iff", "xor")) and fml.has_kind(f, ("forall", "exists", "not")))
     return {"labels": labels + (["expected_true"] if vf else ["expected_false"]), "nontrivial": nontrivial, "violations": viol,
-            "inconclusive": ("unknown_numq:" + inconcl[0]) if inconcl and not viol else None,
+            "inconclusive": ("unknown_or_resource:" + inconcl[0].split(":")[-1]) if inconcl and not viol else None,
             "sample": {"f": fml.pr(f), "g": fml.pr(g2), "string": rt.tyield(t)[:60], "max_arity": ar}}
 
 
